@@ -151,14 +151,14 @@ class Gen:
             if not p:
                 return None
             if r.random() < 0.3:
-                return {"op": "create_pins", "on": p[0], "n": r.randint(1, 2)}
+                return {"op": "create_pins", "on": p[0], "n": r.choice([0, 1, 1, 2, 2, 3])}
             return {"op": "create_pin", "on": p[0]}
         if what == "wire":
             p = self.pick([x for x in self.all("cable") if len(x[1].wires) < self.cfg["max_width"] + 1])
             if not p:
                 return None
             if r.random() < 0.3:
-                return {"op": "create_wires", "on": p[0], "n": r.randint(1, 2)}
+                return {"op": "create_wires", "on": p[0], "n": r.choice([0, 1, 1, 2, 2, 3])}
             return {"op": "create_wire", "on": p[0]}
 
     def _bundle_args(self, ev):
